@@ -33,6 +33,12 @@ def observe(A, b, trans, solver, guess, fmt, rdtype=float):
         Ae = np.array(A, dtype=float).T if trans else np.array(A, dtype=float)
         if guess == "zero":
             g = np.zeros(len(A))
+        elif guess == "other":
+            # warm start from the solution of the system in the *other* orientation (A x = b for a transposed solve)
+            try:
+                g = np.linalg.solve(Ae.T, rhs.astype(float))
+            except np.linalg.LinAlgError:
+                g = np.ones(len(A))
         else:
             try:
                 g = np.linalg.solve(Ae, rhs)
@@ -144,7 +150,7 @@ def main():
             for b in bs:
                 for solver in ("LU", "GMRES") + (("MINRES",) if sym else ()):
                     for trans in (False, True):
-                        guesses = ("none", "zero", "exact") if (chk.thorough or si % 3 == 0) else (("none", "exact")[si % 2],)
+                        guesses = ("none", "zero", "exact", "other") if (chk.thorough or si % 3 == 0) else (("none", "exact", "other")[si % 3],)
                         for guess in guesses:
                             c = {"A": A, "b": b, "trans": trans, "solver": solver, "guess": guess}
                             o = observe(A, b, trans, solver, guess, fmts[(si + len(recs)) % 3], (float, np.int64, np.float32, float)[(si + len(recs) // 3) % 4])
